@@ -7,9 +7,15 @@ V = Path(__file__).resolve().parent.parent
 
 # id -> (design_ref, technique, level text, level note)   — only properties with a working check
 CLAIMED = {
+    "C01": ("3.1", "Lean 4 theorems by induction over rounds of the executable transition system (Steps.pavebaRound / auerRound): invariants I1–I3, valid regions ⇒ sound oracles ⇒ (a) every design outside P is dominated by a member of P, (b) every member of P has gap ≤ ε; correspondence: whole runs of the real algorithms with adversarial in-region posteriors, premise and conclusions evaluated exactly",
+            "Proof: for every number of designs, every cone, every ε and every sequence of per-round oracle relations that are sound at the true means (which validity of the displayed regions gives, proved separately from the semantic ∀∀/∃∃ reading of the region predicates, with region domination a strict partial order for non-degenerate regions), a run ending with S = ∅ satisfies (a) and (b); for the ellipsoidal variants with thresholds ε·α, for the rectangular variants under the side condition W·(εα) ≤ εα that the code's objective-space slack needs (its failure is the known finding D6), for Auer under ‖c−μ‖∞ ≤ min_d β_d. The real PaVeBa, PaVeBaGP (IH/DE), PaVeBaPartialGP (both types) and Auer are run on synthetic unscaled datasets with scripted posteriors that stay inside the displayed regions; Lean checks containment exactly each round and the conclusions exactly at termination.",
+            "Oracle soundness is tied to real geometry by C09/C10 (and exercised end-to-end here); runs where the truth left a region are counted and not judged; two known findings (rect-slack-objective-space-units, auer-scalar-M-vs-smallest-width) are listed, not suppressed for other inputs."),
     "C04": ("3.4", "Lean 4 theorems over Mathlib's gaussianReal (sharp Gaussian tail, chi-square-type tail, infinite union-bound series via zeta(2)/zeta(4), coverage >= 1-delta) about the same RealLike schedule terms the driver runs at Float + correspondence of compute_radius/alpha/beta and region construction",
             "Proof: for each schedule (VOGP, eps-PAL, Auer, PaVeBa, PaVeBaGP rect/ellipsoid, PaVeBaPartialGP rect) the infinite sum over rounds, designs and objectives of the actual Gaussian / chi-square-type tail probabilities at the schedule's scale is proved summable and <= delta at contraction 1 (HasSum / Summable ∧ tsum), and turned into coverage >= 1-delta; PaVeBaPartialGP ellipsoid is `_partial` (missing only K=1, delta in (1/2,1), 3<=m<=6, covered by the labelled numeric scan). The formulas proved about are the identical polymorphic terms evaluated at Float and compared (1e-9) with the real compute_* methods; real modeling() output is compared with the model's region construction.",
             "Assumes Gaussian noise of the configured variance with t samples at round t (bandit algorithms), Gaussian posterior marginals (GP algorithms); Float rounding not modelled; Auer's empirical-beta branch is compared only (no summable bound exists)."),
+    "C05": ("3.5", "Lean 4 theorems by induction over rounds of Steps.vogpRound: isolated designs are never discarded and P is never internally dominated beyond the slack (VOGP with ε·u*, ε-PAL with ε·𝟙), chained from valid displayed rectangles; correspondence: whole VOGP / ε-PAL runs with adversarial in-region posteriors, both conclusions evaluated exactly at termination",
+            "Proof: for every dataset size, cone and arbitrary pessimistic oracle, if the discard/cover oracles are sound at the true values in every round then at termination every design that no other design matches up to the slack is in P and no member of P is dominated by another member by more than the slack (the second statement needs no termination). Real runs use rectangles, non-orthant cones for VOGP, batch sizes 1–4; per-round containment and the two conclusions are decided exactly in Lean with the exported u_star_eps.",
+            "Same trusted base as C01; the pessimistic test's completeness is irrelevant to these theorems (arbitrary oracle)."),
     "C08": ("3.8", "Lean 4 theorems: run state machine, P = Pareto.fast of row means, planar cone lemma => deterministic accuracy, Chernoff + union bound on a product Gaussian measure => (eps,delta)-PAC; correspondence of L, P and run bookkeeping + closed-form failure-probability search",
             "Proof: NaiveElimination's state machine (round, sample_count, P as Pareto.fast of the per-design means of all observations) and the PAC guarantee for 2-D theta-cones with the property's sample count (sigma = sqrt(noise_var)): deviation event probability <= delta on Measure.pi of gaussianReal, and deviations <= eps/(2 beta) imply an accurate set (no member with gap > eps, every design eps-covered). The code's L formula is a RealLike term compared exactly after ceil; where the code's L is smaller than the property's, the closed-form failure probability of a worst-case instance is evaluated (found D1, now fixed).",
             "Gaussian i.i.d. noise is a hypothesis; m = 2 cones (ConeTheta2D is the only bundled cone with beta); Monte-Carlo confirmations are labelled statistical tests."),
@@ -37,6 +43,9 @@ CLAIMED = {
     "C16": ("3.16", "Lean 4 theorems about the empirical model's op-sequence state machine (mean/population variance of all samples since the last clear as of the last update; List.Perm / re-batching invariance; rejection leaves state unchanged) + whole-history replay correspondence with EmpiricalMeanVarModel",
             "Proof: for every add/update/clear history the model's prediction is the arithmetic mean and (>= 2 samples) population variance, else noise·I, of exactly the samples added for that design; invariant under any permutation/re-batching/interleaving; zero mean for unsampled designs; zeros/identity when untracked; out-of-range or mismatched adds are rejected without effect. Real histories (lists, sets, arrays, repeated indices, toggled flags) are replayed in the model with dyadic values (sums exact) and compared.",
             "np.mean/np.var compared at 1e-12 when the count is not a power of two; quirks outside the property (negative indices, empty adds) are modelled and counted only."),
+    "C18": ("3.18", "Lean 4 theorems: one refinement (2^d children tiling the parent, half sides, centre points, depth+1, inherited region) and invariants over every refine/discard/declare sequence and every run_one_step sequence (leaves tile the unit cube, active nodes are interior-disjoint leaves, same-set replacement, depth bound, P only at maximum depth, latch); correspondence with AdaptivelyDiscretizedDesignSpace and whole VOGP_AD runs replayed in the model",
+            "Proof: over any ordered field, children cover the parent, lie inside it and share no interior point; along every operation sequence from the root the leaves (active ∪ declared ∪ discarded) tile [0,1]^d with volumes summing to exactly 1, a refined node is replaced by its children in the set it was in, no node exceeds the maximum depth when refinement is guarded, and every member of P is at maximum depth. The real design space is compared array-for-array (cell ends are dyadic) under random and exhaustive refinement orders; real VOGP_AD runs are observed after every step, invariants checked on the real arrays with exact rationals (R) and the model replay compared (F).",
+            "The vh/std comparison of should_refine_design enters the model as a Boolean input; crashes inside runs are C06's verdicts (counted here)."),
     "C19": ("3.19", "Lean 4 theorems: smallM is the geometric gap (given attained alpha), delta=0 iff no interior dominator, KKT/Farkas certificate soundness for eps-coverage, F1 laws (range, =1, permutation, monotone in eps), hypervolume monotonicity; correspondence with get_smallmij/get_delta/is_covered/get_uncovered_*/calculate_epsilonF1_score/botorch hypervolume",
             "Proof: the gap formula equals the largest admissible shift along all unit cone directions; eps-coverage verdicts are certified by checkers with soundness theorems; the F1 formula's laws are theorems about the modelled arithmetic. The real utilities are compared exactly on dyadic/integer inputs, is_covered outside the numerical band (1e-6 decided exactly; within 1e-3 relative the conic solver's tolerance governs), F1 exactly as a rational when robust.",
             "The active-set search is untrusted (every verdict certified); cvxpy solutions compared not verified; hypervolume theorem is about the mathematical hypervolume, botorch compared."),
